@@ -156,6 +156,7 @@ func c12Run(r *core.Run) {
 	sel := t.Int(64, "c12.sel")
 
 	s := NewStd(r)
+	s.DrawLive()
 	spKey := 4
 	spCert := world.MintCert(spKey, s.Epoch.Add(-time.Hour), s.Epoch.Add(1000*time.Hour), 1)
 	s.Cfg.EncStyle, s.Cfg.EncKeyIdx, s.Cfg.EncCert = world.KeyField, spKey, spCert
